@@ -128,6 +128,21 @@ func init() {
 							"single glob":     {"-i", "internal/gontainer/gontainer*.yaml"},
 							"uncleaned paths": {"-i", "./internal/gontainer/../gontainer/gontainer.yaml", "-i", "internal//gontainer/gontainer_*.yaml"},
 						}
+						// the same files reached through symbolic links (per file, and through a linked directory) and by absolute paths
+						abs, _ := filepath.Abs(filepath.Join(repo, "internal/gontainer"))
+						links := filepath.Join(w.Dir, "links")
+						os.RemoveAll(links)
+						os.MkdirAll(links, 0o755)
+						os.Symlink(filepath.Join(abs, "gontainer.yaml"), filepath.Join(links, "gontainer.yaml"))
+						for _, e := range ents {
+							os.Symlink(filepath.Join(abs, filepath.Base(e)), filepath.Join(links, filepath.Base(e)))
+						}
+						dirlink := filepath.Join(w.Dir, "dirlink")
+						os.Remove(dirlink)
+						os.Symlink(abs, dirlink)
+						forms["absolute paths"] = []string{"-i", filepath.Join(abs, "gontainer.yaml"), "-i", filepath.Join(abs, "gontainer_*.yaml")}
+						forms["files are symbolic links"] = []string{"-i", filepath.Join(links, "gontainer.yaml"), "-i", filepath.Join(links, "gontainer_*.yaml")}
+						forms["directory is a symbolic link"] = []string{"-i", filepath.Join(dirlink, "gontainer.yaml"), "-i", filepath.Join(dirlink, "gontainer_*.yaml")}
 						for name, args := range forms {
 							alt := filepath.Join(w.Dir, "alt.go")
 							os.Remove(alt)
